@@ -188,6 +188,25 @@ def c20_text(format_spec=None, s="v"):
     return {"violates": bool(bad), "detail": bad}
 
 
+def c20_text_unset(format_spec, setv=None, rx=".*"):
+    import re
+
+    from flow.record import RecordDescriptor
+    from flow.record.adapter.text import TextWriter
+
+    A = RecordDescriptor("c20/a", [("varint", "n"), ("string", "s")])
+    fp = io.BytesIO()
+    try:
+        w = TextWriter(fp, format_spec=format_spec)
+        w.write(A(_generated=GEN, **dict(setv or {})))
+        data = fp.getvalue()
+        w.fp = None
+    except Exception as e:
+        return {"violates": True, "detail": f"the text writer raised {type(e).__name__}: {e} for the template {format_spec!r} and a record with the fields {sorted(setv or {})} set"}
+    ok = re.fullmatch(rx.encode(), data) is not None
+    return {"violates": not ok, "detail": None if ok else f"text output {data!r}, expected one line of the form {rx!r}"}
+
+
 def c20_total(ftype, src, display="UTC"):
     import flow.record.fieldtypes as F
     from flow.record import RecordDescriptor
@@ -273,4 +292,4 @@ def c20_sweep(seed=0, n=120):
     return {"violates": False, "cases": cases}
 
 
-CALLS = {"c20_csv_grouped": c20_csv_grouped, "c20_csv": c20_csv, "c20_csv_read": c20_csv_read, "c20_line": c20_line, "c20_text": c20_text, "c20_total": c20_total, "c20_sweep": c20_sweep}
+CALLS = {"c20_text_unset": c20_text_unset, "c20_csv_grouped": c20_csv_grouped, "c20_csv": c20_csv, "c20_csv_read": c20_csv_read, "c20_line": c20_line, "c20_text": c20_text, "c20_total": c20_total, "c20_sweep": c20_sweep}
